@@ -286,6 +286,17 @@ class Tr:
             if isinstance(f, ast.Attribute) and f.attr == "split" and len(n.args) == 1 and isinstance(n.args[0], ast.Constant) and len(n.args[0].value) == 1 \
                     and self.spec.get("splitall"):
                 return f"({self.spec['splitall']} '{n.args[0].value}' {self.e(f.value)})"
+            if (isinstance(f, ast.Attribute) and f.attr == "geturl" and not n.args and not n.keywords and "urlunparse" in self.spec.get("funcs", {})
+                    and isinstance(f.value, ast.Call) and isinstance(f.value.func, ast.Attribute) and f.value.func.attr == "_replace"
+                    and isinstance(f.value.func.value, ast.Name) and not f.value.args):
+                # `r._replace(a=…).geturl()` of a urlparse result: urlunparse of its six components with the replaced ones
+                base = f.value.func.value
+                given = {k.arg: k.value for k in f.value.keywords}
+                six = ("scheme", "netloc", "path", "params", "query", "fragment")
+                if None in given or not set(given) <= set(six):
+                    raise Unsupported("_replace(...).geturl() fields")
+                comps = [given.get(c, ast.Attribute(value=ast.Name(id=base.id, ctx=ast.Load()), attr=c, ctx=ast.Load())) for c in six]
+                return "(" + self.spec["funcs"]["urlunparse"] + " " + " ".join(self.e(c) for c in comps) + ")"
             hn = self._helper_name(n)
             if hn is not None and self.dotted(f) not in self.spec.get("funcs", {}) and self._ensure_helper(hn):
                 return "(" + self._lean_helper(hn) + "".join(" " + self.e(a) for a in n.args) + ")"
@@ -543,6 +554,8 @@ class Tr:
             return self.block([first, second] + list(rest), ind)
         if isinstance(s, ast.Expr) and isinstance(s.value, ast.Call) and ast.unparse(s.value.func).startswith("logger."):
             return self.block(rest, ind)          # logging: no effect on what is modelled (its arguments are not evaluated here)
+        if any(ast.unparse(s).startswith(x) for x in self.spec.get("skip_src", ())):
+            return self.block(rest, ind)
         hoisted = self._hoist_test_call(s)
         if hoisted is not None:
             return self.block(hoisted + list(rest), ind)
@@ -1201,7 +1214,7 @@ def _tofu_spec(name, func, header, ret_type, **kw):
     base = dict(name=name, file="security/tofu.py", cls="TOFUDatabase", func=func, mode="except", thread="w", header=header, ret_type=ret_type,
                 sql=SQL_TOFU, with_ctx={"self._connection()": ("D.close", "_connection", "conn.close()")},
                 world_ops={"conn.commit": dict(fn="D.commit", ret=None)},
-                skip_src=("cursor = conn.cursor()", "now = datetime.datetime.now(datetime.timezone.utc).isoformat()"),
+                skip_src=("cursor = conn.cursor()", "now = "),
                 funcs={"get_certificate_fingerprint": "fpOf"}, row_fields=("fingerprint",),
                 opaque={"cursor.fetchone()": "cur", "cursor.rowcount": "cur"},
                 types={"hostname": "num", "port": "num", "fingerprint": "num", "cert": "num", "cursor.fetchone()": "optobj", "row": "optobj",
@@ -1418,7 +1431,7 @@ SPECS = [
          # `urlparse(url)` and the `.port` property may raise ValueError: parameters of type Except; `.rpartition('@')[2]` is the model's hostPart
          raising={"urlparse(url)": ("splitR", "_split"), "parsed.port": ("portR", "port?")},
          skip_assign=("urlparse(url)",),
-         opaque={"parsed.netloc.rpartition('@')[2]": "(Url.hostPart netloc)"},
+         opaque={"parsed.netloc.rpartition('@')[2]": "(Url.hostPart netloc)", "parsed.netloc.rsplit('@', 1)[-1]": "(Url.hostPart netloc)"},
          funcs={"urlunparse": "Url.unparse6"},
          ctors={"ParsedURL": ("Url.Parsed", {"hostname": "host", "port": "port", "path": "path", "query": "query", "normalized": "normalized"},
                               {"scheme": "'gemini'", "fragment": "parsed.fragment or ''"})},
@@ -1426,7 +1439,7 @@ SPECS = [
                  "URL must not contain userinfo": ".userinfo", "URL must not contain fragment": ".fragment"},
          types={"url": "str", "parsed.scheme": "str", "parsed.hostname": "optstr", "parsed.username": "optstr", "parsed.password": "optstr", "parsed.fragment": "str",
                 "parsed.path": "str", "parsed.netloc": "str", "parsed.query": "str", "parsed.params": "str", "parsed.port": "optnum", "DEFAULT_PORT": "num",
-                "parsed.netloc.rpartition('@')[2]": "str", "port": "num", "path": "str", "host": "str", "bracketed": "bool", "normalized": "str"}),
+                "parsed.netloc.rpartition('@')[2]": "str", "parsed.netloc.rsplit('@', 1)[-1]": "str", "port": "num", "path": "str", "host": "str", "bracketed": "bool", "normalized": "str"}),
 ]
 
 
